@@ -563,6 +563,8 @@ macro_rules! c05_from_slice {
         /// `from_slice` of two elements keeps them and picks the minimal width.
         #[kani::proof]
         #[kani::unwind(4)]
+        #[kani::stub(alloc::fmt::format, crate::util::no_format)]
+        #[kani::stub(std::backtrace::Backtrace::capture, crate::util::no_backtrace)]
         pub fn from_slice2() {
             let words: [W; N] = kani::any();
             let w: usize = kani::any();
@@ -581,8 +583,10 @@ macro_rules! c05_from_slice {
             kani::assume(i < 2);
             assert_eq!(v.get(i), $refget(&words, w, i));
             let m = $refget(&words, w, 0) | $refget(&words, w, 1);
-            assert_eq!(BitFieldSliceCore::<W>::bit_width(&v), B - m.leading_zeros() as usize);
-            kani::cover!(true);
+            // the bit length of zero is one by definition (common_traits::UnsignedInt::len)
+            assert_eq!(BitFieldSliceCore::<W>::bit_width(&v), if m == 0 { 1 } else { B - m.leading_zeros() as usize });
+            kani::cover!(m == 0);
+            kani::cover!(m == 8);
             std::mem::forget(v);
         }
 
@@ -703,6 +707,7 @@ pub mod q {
     pub mod u8_ {
         c05_family!(u8, 4, ref_get_u8, 6, 5, false);
         c05_atomic!(std::sync::atomic::AtomicU8, ref_get_u8);
+        c05_from_slice!(ref_get_u8);
     }
     pub mod usize_ {
         c05_family!(usize, 3, ref_get_usize, 26, 63, true);
@@ -736,6 +741,34 @@ pub mod q {
         std::mem::forget((a, b, c, d));
     }
 
+    /// `from_slice` on values of bit length 3 or 4 (exact powers of two 4 and 8
+    /// included): contents are kept and the width is the minimal one. (The
+    /// version over all values is in the thorough tier: a symbolic width makes
+    /// the allocation symbolic-sized.)
+    #[kani::proof]
+    #[kani::unwind(4)]
+    #[kani::stub(alloc::fmt::format, crate::util::no_format)]
+    #[kani::stub(std::backtrace::Backtrace::capture, crate::util::no_backtrace)]
+    pub fn from_slice_len34() {
+        let x: [u8; 2] = kani::any();
+        kani::assume(x[0] >= 4 && x[0] < 16 && x[1] >= 4 && x[1] < 16);
+        let v = match BitFieldVec::<u8, Vec<u8>>::from_slice(&x) {
+            Ok(v) => v,
+            Err(e) => {
+                std::mem::forget(e);
+                panic!("from_slice failed");
+            }
+        };
+        assert_eq!(v.len(), 2);
+        assert_eq!(v.get(0), x[0]);
+        assert_eq!(v.get(1), x[1]);
+        let m = x[0] | x[1];
+        assert_eq!(BitFieldSliceCore::<u8>::bit_width(&v), 8 - m.leading_zeros() as usize);
+        kani::cover!(x[0] == 4 && x[1] == 4, "maximum is an exact power of two");
+        kani::cover!(x[0] == 8 && x[1] == 5);
+        std::mem::forget(v);
+    }
+
     /// Blanket slice implementations: a `Vec<W>`/array is a bit-field slice of
     /// width `W::BITS`.
     #[kani::proof]
@@ -759,17 +792,10 @@ pub mod q {
 /// Thorough tier adds the other four word types.
 #[cfg(feature = "c05_t")]
 pub mod t {
-    pub mod from_slice_u8 {
-        use super::super::*;
-        type W = u8;
-        const N: usize = 4;
-        const B: usize = 8;
-        type Arr = BitFieldVec<W, [W; N]>;
-        c05_from_slice!(ref_get_u8);
-    }
     pub mod u16_ {
         c05_family!(u16, 4, ref_get_u16, 10, 11, false);
         c05_atomic!(std::sync::atomic::AtomicU16, ref_get_u16);
+        c05_from_slice!(ref_get_u16);
     }
     pub mod u32_ {
         c05_family!(u32, 3, ref_get_u32, 14, 31, true);
